@@ -97,7 +97,7 @@ inline void transition(uint64_t n = 1) { ctx().transitions += n; }
 inline void trace(uint64_t n = 1) { ctx().traces += n; }
 inline void eval(uint64_t n = 1) { ctx().evaluations += n; }
 inline void nontrivial(uint64_t h) { ctx().nontrivial.insert(h); }
-inline void outcome(const std::string &o) { ctx().outcomes[o]++; }
+inline void outcome(const std::string &o, uint64_t n = 1) { ctx().outcomes[o] += n; }
 inline void sample(const std::string &s, size_t max = 6) { if(ctx().samples.size() < max) ctx().samples.push_back(s); }
 
 // Record a violation. sig: narrow class signature "<clause>|<site>|<shape>";
